@@ -376,6 +376,15 @@ class JSONVisitor:
                 self.diagnostics.append(InvalidURL(node.get_line()))
                 raise tinydocutils.nodes.SkipNode()
 
+            if not node["names"]:
+                # An anonymous target ("__ https://..." or ".. __: ...") gets an
+                # automatic id but has no name. We only resolve named references, so
+                # there is nothing it could be attached to: report it and move on.
+                self.diagnostics.append(
+                    UnexpectedNodeType("anonymous target", None, node.get_line())
+                )
+                raise tinydocutils.nodes.SkipNode()
+
             node_id = node["names"][0]
 
             if "refuri" in node:
